@@ -155,10 +155,17 @@ func TestVerifC12(t *testing.T) {
 				hasEventList = true
 			}
 		}
-		for _, pad := range []string{"", "skippable-event-before", "skippable-event-after"} {
-			if pad != "" && !hasEventList {
-				continue
-			}
+		pads := []string{""}
+		if hasEventList {
+			pads = append(pads, "skippable-event-before", "skippable-event-after")
+		}
+		if vrt.PathBlobField(j.path) != "" {
+			// the same batch arriving JSON-encoded (Temporal's serializer reads proto3 and JSON alike)
+			pads = append(pads, "json-encoded-blob", "skippable-event-before+json-encoded-blob")
+			// and next to a batch with nothing to map (only repeated blob fields get the second batch)
+			pads = append(pads, "unmatched-batch-before", "unmatched-batch-after")
+		}
+		for _, pad := range pads {
 			msg := vfBuildAtPadded(j.root, j.path, value, pad)
 			c := vfC12Case{Root: j.root.String(), Path: j.path.String(), Padding: pad != "", After: pad == "skippable-event-after", Variant: "single-path"}
 			vfC12Check(res, tr, j.root, msg, sig, fmt.Sprintf("path %s (padding=%q)", j.path, pad), c, st)
@@ -217,7 +224,7 @@ func TestVerifC12(t *testing.T) {
 	res.Set("event_types_with_a_namespace_path", int64(nTypes))
 	res.Set("root_types", int64(len(roots)))
 	res.Set("fully_populated_roots", populated)
-	res.Set("rule", "for every request and response type of WorkflowService and AdminService: every structural path from the descriptors (through message fields, repeated fields, map values, every oneof arm, History.events, event-bearing DataBlobs; each message type at most twice per path) to a namespace-name field (string field named namespace / *_namespace, NamespaceInfo.name), minimal message with the mapped name at that path, with and without a preceding skippable event; plus one fully populated message per root type; non-trivial = the reference translation finds a mapped name")
+	res.Set("rule", "for every request and response type of WorkflowService and AdminService: every structural path from the descriptors (through message fields, repeated fields, map values, every oneof arm, History.events, event-bearing DataBlobs; each message type at most twice per path) to a namespace-name field (string field named namespace / *_namespace, NamespaceInfo.name), minimal message with the mapped name at that path, with and without a skippable event before / after it, and - for paths through a serialized batch - with the batch JSON-encoded instead of proto3; plus one fully populated message per root type; non-trivial = the reference translation finds a mapped name")
 	res.Set("exhaustive", replayFilter == "")
 	if len(jobs) > 0 {
 		res.Sample(map[string]any{"root": jobs[0].root.String(), "path": jobs[0].path.String()})
